@@ -1,8 +1,11 @@
 package main
 
 import (
-	"daecheck/internal/core"
 	"fmt"
+	"go/ast"
+	"strings"
+
+	"daecheck/internal/core"
 )
 
 func main() {
@@ -10,6 +13,15 @@ func main() {
 	if err != nil {
 		panic(err)
 	}
-	f := p.Func("config", "StringListParser")
-	fmt.Println(f.Graph().CFG.Format(p.Fset))
+	f := p.Func("control", "NewControlPlane")
+	g := f.Graph()
+	for _, b := range g.CFG.Blocks {
+		for _, n := range b.Nodes {
+			if e, ok := n.(ast.Expr); ok && strings.Contains(core.ExprStr(e), "OutboundUserDefinedMax") {
+				fmt.Println(b.Index, b.Kind, b.Live, len(b.Succs), len(b.Nodes), core.ExprStr(e))
+				_, _, _, ok := g.Cond(b)
+				fmt.Println("cond ok", ok, f.Info().Types[e].Type)
+			}
+		}
+	}
 }
